@@ -146,3 +146,59 @@ def run(res, prop, tier, seed, model_ok, search, n_quick, n_thorough, gen_opts=N
         res.disagree({"systematic_penny_differences": penny, "of": len(outs),
                       "note": "more scenarios differ by a penny than exact half-penny ties explain"})
     return outs
+
+
+class BaseOracle:
+    """independent checks on the real run; subclasses override in_callback / after_update / finish_checks / tags"""
+
+    def __init__(self, sc):
+        self.sc = sc
+        self.v = []
+        self.seen = set()
+
+    def hooks(self):
+        return {"in_callback": self.in_callback, "after_update": self.after_update}
+
+    def add(self, sig, what):
+        if sig not in self.seen:
+            self.seen.add(sig)
+            self.v.append((sig, what))
+
+    def in_callback(self, run, strategy, market, market_book):
+        pass
+
+    def after_update(self, run, market_book):
+        pass
+
+    def finish_checks(self, run):
+        pass
+
+    def finish(self, run):
+        if not run.crash:
+            self.finish_checks(run)
+        return self.v
+
+    def tags(self, run):
+        return {"run"}
+
+
+def generic_replay(prop, payload):
+    """re-run one stored scenario on model + implementation + the property's oracle"""
+    import simworld
+    mod = importlib.import_module("props." + prop)
+    sc = (payload.get("replay") or {}).get("scenario")
+    if not sc:
+        print("no scenario stored in this replay file (kind=%s): %s" % (payload.get("kind"), str(payload.get("no_longer_checks"))[:1500]))
+        return 1
+    o = mod.make_oracle(sc)
+    lines, expect = simworld.model_lines(sc)
+    model = [l for l in common.run_driver(lines, strict=False) if l != ""]
+    r = simworld.Run(sc, hooks=o.hooks()).run()
+    impl = [l for _, l in r.out]
+    spec = getattr(mod, "PROJECTION", None)
+    agree = all(simworld.tokens_close(project(a, spec), project(b, spec)) for a, b in zip(model, impl)) and (len(model) == len(impl) or r.crash)
+    print("model/implementation agree under the projection:", agree, "| crash:", r.crash)
+    vs = o.finish(r)
+    for sig, what in vs:
+        print("ORACLE %s: %s" % (sig, what))
+    return 1 if (vs or not agree) else 0
